@@ -63,7 +63,7 @@ def tree_children(n, imports):
     return kids
 
 
-def file_text(i, n, place, imports, defs):
+def file_text(i, n, place, imports, defs, strict=True):
     lines = []
     for j in imports[i]:
         lines.append("import %s" % rel_import(i, j, place))
@@ -71,7 +71,12 @@ def file_text(i, n, place, imports, defs):
         lines.append("Model: us*=V0;")
     kids = tree_children(n, imports)[i]
     lines.append("V%d: %s;" % (i, " | ".join(["U%d" % i] + ["V%d" % j for j in kids])))
-    body = " ".join("('%s' %s=%s)?" % (nm.lower(), nm.lower(), nm) for nm in NAMES)
+    # strict: every file uses both names (an unresolvable one must make the grammar fail); otherwise only the names it can resolve
+    body = " ".join("('%s' %s=%s)?" % (nm.lower(), nm.lower(), nm) for nm in NAMES if strict or resolve(i, nm, imports, defs) is not None)
+    # AX<i>: a rule whose whole body is the unqualified reference to X (its kind is derived from the rule X denotes in THIS file)
+    if resolve(i, "X", imports, defs) is not None:
+        body += " ('ax' ax=AX%d)?" % i
+        lines.append("AX%d: X;" % i)
     lines.append("U%d: 'u%d' %s;" % (i, i, body))
     for nm in defs[i]:
         lines.append("%s: '%s%d' v=INT;" % (nm, nm.lower(), i))
@@ -104,7 +109,7 @@ def on_stack_only(i, nm, imports, defs, n):
     return tgt is not None and tgt in paths.get(i, []) and tgt != i
 
 
-def run_case(n, place, imports, defs):
+def run_case(n, place, imports, defs, strict=True):
     from textx import metamodel_from_file
     from textx.exceptions import TextXError
 
@@ -122,12 +127,12 @@ def run_case(n, place, imports, defs):
                 todo.append(j)
     for i in range(n):
         with open(os.path.join(d, DIRS[place[i]].replace(".", "/"), fname(i) + ".tx"), "w") as f:
-            f.write(file_text(i, n if i else n, place, imports, defs))
-    obs = {"placement": [DIRS[p] or "." for p in place], "imports": imports, "defs": defs}
+            f.write(file_text(i, n if i else n, place, imports, defs, strict))
+    obs = {"placement": [DIRS[p] or "." for p in place], "imports": imports, "defs": defs, "every_file_uses_both_names": strict}
     # the root reaches U<k> by qualified name: every file must be loaded, i.e. reachable through imports
     if reach != set(range(n)):
         return None, obs, None
-    expected_fail = any(resolve(i, nm, imports, defs) is None for i in range(n) for nm in NAMES)
+    expected_fail = strict and any(resolve(i, nm, imports, defs) is None for i in range(n) for nm in NAMES)
     try:
         mm = metamodel_from_file(os.path.join(d, fname(0) + ".tx"))
     except TextXError as e:
@@ -171,6 +176,14 @@ def run_case(n, place, imports, defs):
                         bad.append(("class identity differs from the qualified lookup", want))
                     if type(m.us[0])._tx_fqn != ns(i, place) + ".U%d" % i:
                         bad.append(("_tx_fqn of U", type(m.us[0])._tx_fqn))
+                    if nm == "X":
+                        # the alias rule AX<i> must yield the same class of object
+                        try:
+                            ma = mm.model_from_str("u%d ax x%d 7" % (i, k))
+                            if type(ma.us[0].ax) is not mm[want]:
+                                bad.append(("alias rule AX%d yields" % i, type(ma.us[0].ax)._tx_fqn, want))
+                        except TextXError as e:
+                            bad.append(("alias rule AX%d rejects the keyword of its own X" % i, str(e)[:80]))
     obs["outcome"] = "metamodel built"
     obs["failures"] = [b[:1] if len(b) == 3 and isinstance(b[1], int) else b for b in bad[:3]]
     key = None
@@ -193,7 +206,9 @@ def cases(n, tier):
                 imports = tuple(tuple(c) for c in combo)
                 defsets = [(), ("X",), ("X", "Y")] if tier == "thorough" or n < 3 else [(), ("X", "Y")]
                 for defs in itertools.product(defsets, repeat=n):
-                    yield (n, place, imports, defs)
+                    yield (n, place, imports, defs, True)
+                    if any(resolve(i, nm, imports, defs) is None for i in range(n) for nm in NAMES):
+                        yield (n, place, imports, defs, False)
 
 
 def work(arg):
@@ -219,7 +234,8 @@ def run(ctx):
     ctx.pmap(work, [cs[i:i + 40] for i in range(0, len(cs), 40)])
     return {
         "rule": "case = (number of files, placement in root/sub/sub.deep, import lists in statement order, definitions of X/Y per file); all admissible "
-                "combinations for 2 and 3 files; cases whose files are not all reachable from the root are skipped; non-trivial = at least one import",
+                "combinations for 2 and 3 files, once with every file using both names and - where some name is unresolvable somewhere - once with every "
+                "file using only the names it can resolve (and an alias rule 'AX<i>: X;'); cases whose files are not all reachable from the root are skipped; non-trivial = at least one import",
         "exhaustive": True, "cases": len(cs),
     }, ["every file i defines U<i> using X and Y unqualified; the root reaches U<i> through abstract rules V<k> along a spanning tree of the import graph",
         "qualified access is checked through metamodel['<namespace>.<Rule>'] (qualified rule references inside rule bodies are not accepted by the grammar parser)"]
@@ -227,5 +243,5 @@ def run(ctx):
 
 def replay(p):
     c = p["case"]
-    r = run_case(c[0], tuple(c[1]), tuple(tuple(x) for x in c[2]), tuple(tuple(x) for x in c[3]))
+    r = run_case(c[0], tuple(c[1]), tuple(tuple(x) for x in c[2]), tuple(tuple(x) for x in c[3]), c[4] if len(c) > 4 else True)
     return bool(r[0]), r[1]
